@@ -157,6 +157,7 @@ struct EQAdapterT
 	void wait() { q->wait(); }
 	bool waitFor(int64_t ns) { return q->waitFor(std::chrono::nanoseconds(ns)); }
 	void * makeDqn() { return new DQN(q); }
+	void * copyDqn(void * p) { return new DQN(*(DQN *)p); }   // a copy is one more DisableQueueNotify object alive
 	void freeDqn(void * p) { delete (DQN *)p; }
 };
 
@@ -190,6 +191,7 @@ struct HQAdapter
 	void wait() { q->wait(); }
 	bool waitFor(int64_t ns) { return q->waitFor(std::chrono::nanoseconds(ns)); }
 	void * makeDqn() { return nullptr; }
+	void * copyDqn(void *) { return nullptr; }
 	void freeDqn(void *) {}
 };
 
@@ -370,9 +372,9 @@ struct Harness : ListenerSink, EvHooks
 		--liveDqn;
 		ad.freeDqn(p);
 	}
-	void openDqn(int task)
+	void openDqn(int task, bool copyOfTop = false)
 	{
-		void * p = ad.makeDqn();
+		void * p = copyOfTop && !dqnStack[task].empty() ? ad.copyDqn(dqnStack[task].back()) : ad.makeDqn();
 		if(!p) return;
 		++liveDqn; ++counters.dqnScopes;
 		DqnRec r; r.ctorRet = stamp.next(); r.dtorInv = -1;
@@ -426,8 +428,9 @@ struct Harness : ListenerSink, EvHooks
 			if(id < 0 || id >= STOP_ID || ev[id].enqStarted) break;
 			EvRec & r = ev[id];
 			r.key = ((op.d % nKeys) + nKeys) % nKeys; r.producer = task; r.asInt = (A::kind == OBJ_HETER) && op.c == 1;
-			const int depth = std::max(0, std::min(2, op.b));
-			for(int i = 0; i < depth; ++i) openDqn(task);
+			// b: 0 none, 1 / 2 nested DisableQueueNotify scopes around the enqueue, 3: one scope and a copy-constructed copy of it
+			const int depth = op.b == 3 ? 2 : std::max(0, std::min(2, op.b));
+			for(int i = 0; i < depth; ++i) openDqn(task, op.b == 3 && i == 1);
 			{
 				Ev payload(id);
 				r.enqStarted = true; r.enqInv = stamp.next();
@@ -858,7 +861,7 @@ void generate(uint64_t seed, Plan & plan)
 			for(int i = 0; i < n; ++i) {
 				const uint32_t r = rng.below(100);
 				if(!heter && r < 22 && open < 2) { l.push_back(Op(O_DQN_OPEN)); ++open; }
-				l.push_back(Op(O_ENQ, nextId++, (!heter && rng.chance(1, 3)) ? 1 + (int)rng.below(2) : 0, (int)rng.below(2), (int)rng.below(2)));
+				l.push_back(Op(O_ENQ, nextId++, (!heter && rng.chance(1, 3)) ? 1 + (int)rng.below(3) : 0, (int)rng.below(2), (int)rng.below(2)));
 				if(open > 0 && rng.chance(1, 2)) { l.push_back(Op(O_DQN_CLOSE)); --open; }
 			}
 			while(open-- > 0) l.push_back(Op(O_DQN_CLOSE));
